@@ -119,7 +119,7 @@ theorem pyIntLit_py {m : Mode} {tok : Str} {n : Int} (h : pyIntLit m tok = .ok n
   · cases h
 
 /-- a folded value printed by `str(...)` (py2cpp.py:847), wrapped and rendered, denotes the CPython value it is similar to -/
-theorem emit_of_sim (ops : FloatOps F) (ti : TyInfo) {v v' : V F} (hs : Sim v v') (hfit : ti.fits v')
+theorem emit_of_sim (m : Mode) (hne : m.noEsc = true) (ops : FloatOps F) (ti : TyInfo) {v v' : V F} (hs : Sim m v v') (hfit : ti.fits v')
     (hdq : ∀ c, v' = .str c → c.contains '"' = false) :
     Denotes ops (renderLiteralize ti.varType
       (if ti.isStr then unq (if !ti.isStr && Str.startsWith (pyStrOf ops v) ['-'] then '(' :: (pyStrOf ops v ++ [')']) else pyStrOf ops v)
@@ -133,15 +133,21 @@ theorem emit_of_sim (ops : FloatOps F) (ti : TyInfo) {v v' : V F} (hs : Sim v v'
     obtain ⟨h1, h2⟩ := hfit
     simp only [renderLiteralize, h1, h2, pyStrOf, Bool.not_false, Bool.true_and, if_true, Bool.false_eq_true, if_false]
     exact denotes_wrap_float ops (Denotes.floatStr x)
-  | str hq =>
+  | str hq hd hn =>
     obtain ⟨h1, h2⟩ := hfit
+    have hid := decode_id (hn hne)
+    rw [hd] at hid
     simp only [renderLiteralize, h1, h2, pyStrOf, Bool.not_true, Bool.false_and, Bool.false_eq_true, if_false, if_true, quoted_unq hq, quote]
+    rw [← hid]
     exact Denotes.str _ (hdq _ rfl)
 
 /-- the core: whenever CPython evaluates the member value to `v'` and the type answer fits `v'`, the emitted text denotes `v'`
-    or `emitValue` fails with an error of class `R`. A string value must not contain a double quote (the template does not escape it). -/
+    or `emitValue` fails with an error of class `R` — in a mode without escaped string tokens (`noEsc`: the C++ reader of the text is
+    not modelled beyond plain contents). A string value must not contain a double quote (the template does not escape it). -/
 theorem emit_core (m : Mode) (ops : FloatOps F) (env : Env) (R : Err → Prop)
-    (hR : ∀ er, Refusal er → R er) (h4 : m.lowerHex = false → R (.fatal .valueError))
+    (hR : ∀ er, Refusal er → R er) (h4 : m.lowerHex = false → R (.fatal .valueError)) (hne : m.noEsc = true)
+    (hts : ∀ x, (ops.toStr x).contains '\\' = false)
+    (hparse : ∀ s, s.contains '\\' = true → ops.parse s = .error .valueError)
     (fuel : Nat) (mem : Member) (ti : TyInfo) (venv : VEnv F) (v' : V F)
     (hty : mem.ty = .ok ti) (hfit : ti.fits v') (hq : ∀ c, v' = .str c → c.contains '"' = false)
     (hc : Cons m ops env venv) (hp : evalPy m ops env.known venv (toPy mem.value) = .ok v') :
@@ -171,7 +177,7 @@ theorem emit_core (m : Mode) (ops : FloatOps F) (env : Env) (R : Err → Prop)
       if_true, Bool.false_eq_true, if_false]
     exact denotes_wrap_float ops (Denotes.floatTok hx)
   | string _ | factor _ _ | chain _ _ _ | group _ | call _ _ | var _ _ | value _ _ _ =>
-    have hg := sound_core m ops env R hR h4 fuel _ venv v' hc hp
+    have hg := sound_core m ops env R hR h4 (by intro h; rw [hne] at h; cases h) hts hparse fuel _ venv v' hc hp
     simp only [emitValue]
     rw [hfold _ rfl (by intro t h; cases h) (by intro t h; cases h)]
     cases hx : execImpl ops env fuel _ with
@@ -179,6 +185,6 @@ theorem emit_core (m : Mode) (ops : FloatOps F) (env : Env) (R : Err → Prop)
     | ok v =>
       rw [hx] at hg
       simp only [Except.map, bind, Except.bind, pure, Except.pure]
-      exact emit_of_sim ops ti hg hfit hq
+      exact emit_of_sim m hne ops ti hg hfit hq
 
 end Tranp.Evaluator
